@@ -63,6 +63,7 @@ type c09World struct {
 	nEvs   int64
 	hooks  *int64
 	netPos int // network log already consumed
+	directPos int // ... by checkDirect
 }
 
 const c09Unknown = 99
@@ -186,6 +187,34 @@ func (w *c09World) publishedSince(consume bool) []sim.Msg {
 		w.netPos = len(log)
 	}
 	return out
+}
+
+// checkDirect looks at what X sent over the direct channel since the last call: heads of a
+// database go only to a peer that has that database open (it joined the database's topic).
+func (w *c09World) checkDirect(yIdx int, descr interface{}) {
+	log := w.s.Env.Net.LogSnapshot()
+	for _, m := range log[w.directPos:] {
+		if m.Kind != "direct" || m.From != w.s.Reps[0].Idx || m.To != yIdx {
+			continue
+		}
+		var msg iface.MessageExchangeHeads
+		if err := json.Unmarshal(m.Payload, &msg); err != nil {
+			continue
+		}
+		nh := 0
+		for _, h := range msg.Heads {
+			if h != nil {
+				nh++
+			}
+		}
+		w.r.Count("direct-message-from-X-inspected")
+		j := w.dbOfAddr(msg.Address)
+		if nh > 0 && (j < 0 || j >= len(w.y) || w.y[j] == nil) {
+			w.r.AddDirect("heads-sent-to-peer-without-the-database", fmt.Sprintf("%d head(s) of database %d (%s) were sent over the direct channel to a peer that never opened it", nh, j, msg.Address), descr)
+			w.r.Count("heads-sent-to-peer-without-the-database")
+		}
+	}
+	w.directPos = len(log)
 }
 
 // calm waits until X's replicators are idle, every background load has returned and
@@ -646,6 +675,17 @@ func c09Scenario(r *Run, si int, hookCount *int64) error {
 		w.wmodes = append(w.wmodes, mode)
 		s.Canon.LogID.ID(st.Address().String())
 	}
+	// in every second scenario X's databases already hold an entry each when Y opens some of
+	// them: a peer that joins the topic of one database is sent the heads of that database
+	if r.Rng.Intn(2) == 0 {
+		for j := 0; j < k; j++ {
+			if err := writeOp(r, s, w.x[j], 9000+j); err != nil {
+				return fmt.Errorf("first write on X db %d: %w", j, err)
+			}
+			w.note(w.x[j].OpLog().Values().Slice())
+		}
+		r.Count("databases-written-before-peer-joins")
+	}
 	// in every second scenario Y opens all its databases with ONE options value (a caller may
 	// well keep its options in a variable): whatever an Open leaves in it must not leak into
 	// the next database
@@ -670,6 +710,7 @@ func c09Scenario(r *Run, si int, hookCount *int64) error {
 	w.calm(20 * time.Second)
 	w.takeEvents()
 	w.publishedSince(true)
+	w.checkDirect(Y.Idx, map[string]interface{}{"scen": si, "phase": "peer opens its databases", "k": k, "types": w.types, "memory": mem})
 
 	steps := 8 + r.Rng.Intn(5)
 	if r.Tier == "thorough" {
@@ -781,6 +822,7 @@ func c09Scenario(r *Run, si int, hookCount *int64) error {
 		after := w.observeAll()
 		evs := w.takeEvents()
 		pubs := w.publishedSince(true)
+		w.checkDirect(Y.Idx, descr)
 
 		if kind == "ysync" || kind == "resync" {
 			// what database j's replicator emitted, as witnessed by j's own store events
